@@ -24,6 +24,8 @@ CONSTANTS Rcpts,        \* recipient identities
           Devs,         \* enabled deviations
           RwSets,       \* sets of recipients that reached the queue rewritten (C18); {{}} = none
           Utf8Set,      \* SMTPUTF8 flag values of the message explored
+          EnhSet,       \* do the failures carry an enhanced status code? (TRUE = yes; FALSE explored for the
+                        \* slice without rewritten recipients / SMTPUTF8 only: the report's status is all it changes)
           BounceStages, \* how a report hand-over may end: "ok", or failing at "start","rcpt","body","commit"
           Gen           \* TRUE: keep the behaviour history and print complete behaviours
 
@@ -54,8 +56,10 @@ Dedup(s) == LET RECURSIVE D(_, _)
                              ELSE D(i + 1, Append(acc, s[i]))
             IN D(1, <<>>)
 
-Cfgs == [partial : BOOLEAN, bounce : BOOLEAN, nullSender : BOOLEAN, mt : MaxTriesSet, list : Lists,
-         rw : RwSets, utf8 : Utf8Set]
+CfgsOf(rwS, u8S, enhS) ==
+  [partial : BOOLEAN, bounce : BOOLEAN, nullSender : BOOLEAN, mt : MaxTriesSet, list : Lists,
+   rw : rwS, utf8 : u8S, enh : enhS]
+Cfgs == CfgsOf(RwSets, Utf8Set, {TRUE}) \cup CfgsOf({{}}, {FALSE}, EnhSet \ {TRUE})
 
 H(e) == IF Gen THEN Append(hist, e) ELSE hist
 
@@ -165,13 +169,14 @@ TCommit(res) ==
 \* the report emitDSN builds: listed under the addresses the client supplied, with the
 \* stored last status, null return path, addressed to the sender, original header attached
 ExpectedReport ==
-  [ listed |-> failed, status |-> [r \in ToSet(failed) |-> StatusOf(rerr[r])] ]
+  [ listed |-> failed, status |-> [r \in ToSet(failed) |-> StatusOfE(rerr[r], cfg.enh)],
+    cls |-> [r \in ToSet(failed) |-> ClassOf(rerr[r])] ]
 
 Dsn(stage) ==
   /\ phase = "dsn"
   /\ obs' = IF stage \in {"start", "rcpt"}      \* the hand-over ended before the report body was shown
             THEN ObsDsn(obs, obs.owed, Suppress(cfg))
-            ELSE ObsReport(ObsDsn(obs, ToSet(failed), Suppress(cfg)), GoodReport(ExpectedReport), cfg.utf8)
+            ELSE ObsReport(ObsDsn(obs, ToSet(failed), Suppress(cfg)), GoodReport(ExpectedReport), cfg.utf8, cfg.enh)
   /\ hist' = H([a |-> "Dsn", rcpts |-> failed, stage |-> stage])
   /\ failed' = <<>> /\ newTo' = <<>>
   /\ IF newTo = <<>> THEN phase' = "quiet" /\ to' = <<>>
